@@ -245,3 +245,13 @@ PROPS["C03"]["theorems"] = list(PROPS["C03"]["theorems"]) + ["cfg_atoms_as_model
 PROPS["C20"]["theorems"] = list(PROPS["C20"]["theorems"]) + ["cfg_atoms_as_modelled"]
 if "nostd-avx2-release" not in PROPS["C14"]["cfgs_quick"]:
     PROPS["C14"]["cfgs_quick"] = list(PROPS["C14"]["cfgs_quick"]) + ["nostd-avx2-release"]
+
+
+# ---- phase 3 of the translator tie: the glue (cipher bookkeeping, hashers' update / finalize / reset / default /
+#      struct inventories, Threefish trait impls) — obligations collected in `source_glue_match`
+for _pid in ("C02", "C04", "C05", "C06", "C07", "C09", "C10", "C11"):
+    if "source_glue_match" not in PROPS[_pid]["theorems"]:
+        PROPS[_pid]["theorems"] = list(PROPS[_pid]["theorems"]) + ["source_glue_match"]
+    _te = "tools/inventory_kernels*.py (translator; see DESIGN §0.6): Rust reading table, BlockBuffer methods as named primitives mapped to CC.Buffer, extern compressor functions, struct invariants assumed in the glue obligations"
+    if _te not in PROPS[_pid].get("trusted_extra", []):
+        PROPS[_pid]["trusted_extra"] = list(PROPS[_pid].get("trusted_extra", [])) + [_te]
